@@ -76,6 +76,29 @@ TABLE = {
             'byte-level digests of ndarray/DataFrame/Series/dict/list arguments', '3/C20'),
 }
 
+SHORT = {
+    'C01': 'RNG-interposition reconstruction of samples + schema contracts + DKW/Hoeffding bands',
+    'C02': 'post-fit contract with independent recomputation of the correlation matrix',
+    'C03': 'distribution-function law oracle (monotonicity, quadrature identity, Galois inverse) on every fitted model',
+    'C04': 'ground-truth recovery bands with exact binomial rule, closed-form exactness, explicit-sum KDE reference',
+    'C05': 'recorder probes on the selection functions + independent re-selection + configuration contracts',
+    'C06': 'copula axioms + mpmath generator reference + batch/instance differentials on observed CDF calls',
+    'C07': 'mpmath derivative reference + quadrature identities + batch/instance differentials on h and density',
+    'C08': 'sign-change inverse oracle against own and reference h-function + element-wise differentials',
+    'C09': 'RNG-interposition Rosenblatt check + DKW/Hoeffding/joint-CDF bands',
+    'C10': 'post-fit / on-raise contract against O(n^2) tau-b and reference calibration, with fit histories',
+    'C11': 'contract on select_copula (calibration, determinism, sharing, row order) + binomial recovery cells',
+    'C12': 'recorded conditional draw vs independent Schur complement + statistical layer',
+    'C13': 'density vs independent MVN reference + representation/batch differentials + CDF references',
+    'C14': 'behaviour-fingerprint differential across serialisation round trips',
+    'C15': 'icontract global-RNG snapshot contract + interleaved-history replay differential',
+    'C16': 'post-fit structural contract (union-find, proximity, shape, Kruskal weight) on fitted vines',
+    'C17': 'variable-keyed reference recursion for edge inputs, h-functions and likelihood + sampling bands',
+    'C18': 'per-lane sign-change oracle + lane-independence differential + bracket contracts',
+    'C19': 'refit-history differential + np.empty poison differential + misuse contracts',
+    'C20': 'deep argument-snapshot contract on every entry point (also under other workloads) + plot trace oracle',
+}
+
 TEXT = ('Exploration by runtime monitoring: the real code in /repo is executed on seeded generated '
         'workloads while oracles observe every call. Held means "no violation on the executions '
         'listed in the evidence file", not a proof. ')
@@ -89,13 +112,13 @@ def main():
                 'property_id': pid,
                 'quick_cmd': './check %s --tier quick' % pid,
                 'thorough_cmd': './check %s --tier thorough' % pid,
-                'evidence_file': 'evidence/%s.json' % pid,
+                'evidence_file': '/verif/evidence/%s.json' % pid,
                 'replay_cmd_template': './check %s --replay {path}' % pid,
                 'engine': 'vmon',
                 'level_claimed': {'category': 'exploration', 'text': TEXT + tech,
                                   'design_ref': 'DESIGN.md section ' + ref},
                 'level_note': note,
-                'technique': tech.split(':')[0] + ' (' + tech.split(':', 1)[1].strip()[:90] + ')',
+                'technique': 'runtime monitoring: ' + SHORT[pid],
             })
         else:
             na.append({'property_id': pid,
